@@ -47,6 +47,12 @@ func init() {
 func globalMapLiteral(p *core.Prog, pkg, name string) (map[string]string, bool) {
 	g := p.Global(pkg, name)
 	sp := p.SSAPkgs[pkg]
+	if g == nil && sp != nil {
+		// the table may be written as a function (a switch over the key)
+		if tab, _, ok := funcTable(p, pkg, name); ok {
+			return tab, true
+		}
+	}
 	if g == nil || sp == nil {
 		return nil, false
 	}
@@ -81,6 +87,80 @@ func globalMapLiteral(p *core.Prog, pkg, name string) (map[string]string, bool) 
 		}
 	}
 	return nil, false
+}
+
+// funcTable reads a table that is written as a function of its key - `func name(key) (value, bool)` or `func name(key) bool`,
+// usually a switch: the keys are the constants the parameter is compared with, the rows are what the function returns for
+// them (evaluated by constant propagation). The function is looked up under the table's name, with or without a plural s.
+func funcTable(p *core.Prog, pkg, name string) (map[string]string, *ssa.Function, bool) {
+	var f *ssa.Function
+	for _, n := range []string{name, strings.TrimSuffix(name, "s"), name + "s"} {
+		if g := p.Func(pkg, n); g != nil && len(g.Params) == 1 && len(g.Blocks) > 0 {
+			f = g
+			break
+		}
+	}
+	if f == nil {
+		return nil, nil, false
+	}
+	nres := f.Signature.Results().Len()
+	if nres < 1 || nres > 2 || !isBool(f.Signature.Results().At(nres-1).Type()) {
+		return nil, nil, false
+	}
+	keys := map[string]constant.Value{}
+	isParam := func(v ssa.Value) bool {
+		for d := 0; d < 3; d++ {
+			if v == ssa.Value(f.Params[0]) {
+				return true
+			}
+			switch x := v.(type) {
+			case *ssa.Convert:
+				v = x.X
+			case *ssa.ChangeType:
+				v = x.X
+			default:
+				return false
+			}
+		}
+		return false
+	}
+	for _, b := range f.Blocks {
+		for _, in := range b.Instrs {
+			bo, ok := in.(*ssa.BinOp)
+			if !ok || (bo.Op != token.EQL && bo.Op != token.NEQ) {
+				continue
+			}
+			for _, pair := range [][2]ssa.Value{{bo.X, bo.Y}, {bo.Y, bo.X}} {
+				if cst, isC := pair[1].(*ssa.Const); isC && cst.Value != nil && isParam(pair[0]) {
+					keys[cst.Value.ExactString()] = cst.Value
+				}
+			}
+		}
+	}
+	if len(keys) == 0 {
+		return nil, nil, false
+	}
+	ce := eng.NewConstEvaluator()
+	out := map[string]string{}
+	for _, kv := range keys {
+		res, err := ce.Eval(f, []constant.Value{kv})
+		if err != nil || len(res) != nres {
+			return nil, nil, false
+		}
+		if res[nres-1].Kind() != constant.Bool {
+			return nil, nil, false
+		}
+		if !constant.BoolVal(res[nres-1]) {
+			continue
+		}
+		kc := &ssa.Const{Value: kv}
+		val := "true"
+		if nres == 2 {
+			val = constText(&ssa.Const{Value: res[0]})
+		}
+		out[constText(kc)] = val
+	}
+	return out, f, len(out) > 0
 }
 
 func constText(c *ssa.Const) string {
@@ -2418,32 +2498,50 @@ func romanValue(s string) int {
 	return 0
 }
 
+// checkRomanMarkers: R06.13 on the words of the list-marker table.
+func checkRomanMarkers(c *Ctx, p *core.Prog, words map[string]string, pos string) {
+	have := map[int]bool{}
+	max := 0
+	for w := range words {
+		if v := romanValue(w); v > 0 {
+			have[v] = true
+			if v > max {
+				max = v
+			}
+		}
+	}
+	var missing []string
+	for v := 1; v <= max; v++ {
+		if !have[v] {
+			missing = append(missing, fmt.Sprint(v))
+		}
+	}
+	c.R.Check(len(missing) == 0 && max >= 5, "R06.13", "the roman numerals of the list-marker table run from i to their maximum without a hole", pos,
+		fmt.Sprintf("numerals 1..%d all present", max), "the table has roman numerals up to "+fmt.Sprint(max)+" but not "+strings.Join(missing, ", ")+": that item of a numbered list keeps its marker as a word and the text no longer matches")
+}
+
 func checkMarkerTableDecides(c *Ctx, p *core.Prog) {
 	g := p.Global(v2pkg, "listMarker")
+	if g == nil {
+		if tab, tf, ok := funcTable(p, v2pkg, "listMarker"); ok {
+			// the table is a function over the word: its rows are read by evaluating it; how it is consulted (R06.8) is a
+			// call, not a map lookup, and is not examined
+			checkRomanMarkers(c, p, tab, p.Pos(tf.Pos()))
+			c.R.Info("R06.8", "the list-marker table is the function "+tf.Name(), p.Pos(tf.Pos()), "not decided: the rule is written over lookups in a table variable")
+			return
+		}
+	}
 	if !c.R.Anchor(g != nil, "v2.listMarker") {
 		return
 	}
 	// R06.13: the roman numerals of the table form a range without holes: a list that is numbered i. ii. ... runs through
 	// every numeral up to its length
 	if words, ok := markerWords(p, g); ok {
-		have := map[int]bool{}
-		max := 0
+		tab := map[string]string{}
 		for w := range words {
-			if v := romanValue(w); v > 0 {
-				have[v] = true
-				if v > max {
-					max = v
-				}
-			}
+			tab[w] = "true"
 		}
-		var missing []string
-		for v := 1; v <= max; v++ {
-			if !have[v] {
-				missing = append(missing, fmt.Sprint(v))
-			}
-		}
-		c.R.Check(len(missing) == 0 && max >= 5, "R06.13", "the roman numerals of the list-marker table run from i to their maximum without a hole", p.Pos(g.Pos()),
-			fmt.Sprintf("numerals 1..%d all present", max), "the table has roman numerals up to "+fmt.Sprint(max)+" but not "+strings.Join(missing, ", ")+": that item of a numbered list keeps its marker as a word and the text no longer matches")
+		checkRomanMarkers(c, p, tab, p.Pos(g.Pos()))
 	} else {
 		c.R.Info("R06.13", "list-marker table", p.Pos(g.Pos()), "the words of the table are not constants of the initialiser: not read")
 	}
@@ -2476,15 +2574,32 @@ func checkMarkerTableDecides(c *Ctx, p *core.Prog) {
 						continue
 					}
 					// follow unconditional jumps from the true successor
-					t := ifi.Block().Succs[0]
+					t, from := ifi.Block().Succs[0], ifi.Block()
 					for len(t.Instrs) == 1 {
 						if _, isJ := t.Instrs[0].(*ssa.Jump); !isJ {
 							break
 						}
-						t = t.Succs[0]
+						t, from = t.Succs[0], t
 					}
 					if ret, isRet := t.Instrs[len(t.Instrs)-1].(*ssa.Return); isRet && len(ret.Results) == 1 {
-						if cst, isC := ret.Results[0].(*ssa.Const); isC && cst.Value != nil && cst.Value.String() == "true" {
+						rv := ret.Results[0]
+						// `return table[w] || other(w)`: the value returned is a phi whose edge from the lookup is true
+						if phi, isPhi := rv.(*ssa.Phi); isPhi && phi.Block() == t {
+							onlyPhis := true
+							for _, pi := range t.Instrs[:len(t.Instrs)-1] {
+								if _, ok := pi.(*ssa.Phi); !ok {
+									if _, dbg := pi.(*ssa.DebugRef); !dbg {
+										onlyPhis = false
+									}
+								}
+							}
+							for k, pr := range t.Preds {
+								if pr == from && onlyPhis {
+									rv = phi.Edges[k]
+								}
+							}
+						}
+						if cst, isC := rv.(*ssa.Const); isC && cst.Value != nil && cst.Value.String() == "true" {
 							okAll, why = true, "a word found in the marker table is a marker, whatever its closing character"
 							continue
 						}
@@ -2533,6 +2648,12 @@ func consultsOnEveryPath(f *ssa.Function, g *ssa.Global) bool {
 // word after punctuation was stripped from it, never with the raw buffered word (or a substring / re-cased copy of it).
 func checkSpellingLookupOnCleanText(c *Ctx, p *core.Prog) {
 	g := p.Global(v2pkg, "interchangeableWords")
+	if g == nil {
+		if _, tf, ok := funcTable(p, v2pkg, "interchangeableWords"); ok {
+			c.R.Info("R06.7", "the spelling table is the function "+tf.Name(), p.Pos(tf.Pos()), "not decided: the rule is written over lookups in a table variable")
+			return
+		}
+	}
 	if !c.R.Anchor(g != nil, "v2.interchangeableWords") {
 		return
 	}
@@ -2778,6 +2899,19 @@ func checkCaseFoldedLookups(c *Ctx, p *core.Prog, ts *ssa.Function) {
 				c.R.Check(how != "", "R11.7", key, p.Pos(lk.Pos()), how,
 					"the table is lower-case, Normalize keeps the capital of a word's first letter and Match lower-cases it: a capitalised entry (\"A.\", \"II.\") is treated differently by Match and by Normalize, so matching the normalised text sees different words than matching the original")
 			}
+		}
+	}
+	if n == 0 {
+		// the word tables may be functions over the word (a switch): then there is no map lookup to examine
+		_, f1, ok1 := funcTable(p, v2pkg, "interchangeableWords")
+		_, f2, ok2 := funcTable(p, v2pkg, "listMarker")
+		if ok1 || ok2 {
+			at := f1
+			if at == nil {
+				at = f2
+			}
+			c.R.Info("R11.7", "the word tables are functions", p.Pos(at.Pos()), "not decided: the rule is written over lookups in table variables")
+			return
 		}
 	}
 	c.R.RequireMin("R11.7", "word-table lookups in the token clean-up", n, 1)
@@ -4023,24 +4157,74 @@ func isString(t types.Type) bool {
 // end-of-line tokens themselves must never be written as text. Every write of a dictionary word into
 // the output must therefore be dominated by the test `word != eol` (sibling consistency: the loop
 // body has the test; any write without it emits an extra newline and shifts every following line).
+// writeSite: a write into the output of Normalize - in Normalize itself, or in a helper of the package that Normalize calls
+// (a writer type with methods): leaf is the write, top the instruction of Normalize it happens under (the write itself or
+// the call of the helper), arg the value written, seen from Normalize (a helper's parameter is replaced by the argument).
+type writeSite struct {
+	leaf ssa.CallInstruction
+	top  ssa.Instruction
+	arg  ssa.Value
+}
+
+func normalizeWriteSites(nz *ssa.Function) []writeSite {
+	var out []writeSite
+	isWrite := func(call ssa.CallInstruction) bool {
+		n := core.StaticCalleeName(call.Common())
+		return (strings.HasSuffix(n, ").WriteString") || strings.HasSuffix(n, ").WriteByte") || strings.HasSuffix(n, ").WriteRune")) && len(call.Common().Args) == 2
+	}
+	for _, call := range core.CallsIn(nz) {
+		if isWrite(call) {
+			out = append(out, writeSite{call, call, call.Common().Args[1]})
+			continue
+		}
+		h := call.Common().StaticCallee()
+		if h == nil || core.FuncPkgPath(h) != v2pkg || len(h.Blocks) == 0 {
+			continue
+		}
+		for _, hc := range core.CallsIn(h) {
+			if !isWrite(hc) {
+				continue
+			}
+			arg := hc.Common().Args[1]
+			if prm, ok := arg.(*ssa.Parameter); ok {
+				for k, q := range h.Params {
+					if q == prm && k < len(call.Common().Args) {
+						arg = call.Common().Args[k]
+					}
+				}
+			}
+			out = append(out, writeSite{hc, call, arg})
+		}
+	}
+	return out
+}
+
 func checkNormalizeEOLGuard(c *Ctx, p *core.Prog, nz *ssa.Function) {
 	eolG := p.Global(v2pkg, "eol")
 	getWord := p.Func(v2pkg, "(*dictionary).getWord")
 	if !c.R.Anchor(eolG != nil, "v2.eol") || !c.R.Anchor(getWord != nil, "v2.(*dictionary).getWord") {
 		return
 	}
-	n := 0
-	for _, call := range core.CallsIn(nz) {
-		if core.StaticCalleeName(call.Common()) != "(*bytes.Buffer).WriteString" && core.StaticCalleeName(call.Common()) != "(*strings.Builder).WriteString" {
-			continue
+	sites := normalizeWriteSites(nz)
+	isWordWrite := func(ws writeSite) (*ssa.Call, bool) {
+		if !strings.HasSuffix(core.StaticCalleeName(ws.leaf.Common()), ").WriteString") {
+			return nil, false
 		}
-		w, isCall := call.Common().Args[1].(*ssa.Call)
+		w, isCall := ws.arg.(*ssa.Call)
 		if !isCall || w.Call.StaticCallee() != getWord {
+			return nil, false
+		}
+		return w, true
+	}
+	n := 0
+	for _, ws := range sites {
+		w, ok := isWordWrite(ws)
+		if !ok {
 			continue
 		}
 		n++
 		guarded := false
-		for _, f := range core.FactsAtInstr(call) {
+		for _, f := range core.FactsAtInstr(ws.top) {
 			cmp, ok := f.AsCmp()
 			if !ok || cmp.Op != token.NEQ {
 				continue
@@ -4053,7 +4237,7 @@ func checkNormalizeEOLGuard(c *Ctx, p *core.Prog, nz *ssa.Function) {
 				guarded = true
 			}
 		}
-		c.R.Check(guarded, "R11.5", "Normalize: a word is written out only after it was tested not to be the end-of-line token", p.Pos(call.Pos()),
+		c.R.Check(guarded, "R11.5", "Normalize: a word is written out only after it was tested not to be the end-of-line token", p.Pos(ws.top.Pos()),
 			"dominated by word != eol", "a token's text is written without the end-of-line test that the main loop applies: when that token is an end-of-line token (input starting with a blank or removed line) an extra newline is emitted and every following line of the output is shifted against the line numbers Match reports")
 	}
 	c.R.RequireMin("R11.5", "words written by Normalize", n, 1)
@@ -4062,20 +4246,20 @@ func checkNormalizeEOLGuard(c *Ctx, p *core.Prog, nz *ssa.Function) {
 	// string sits under an ordering test on the token's line (a loop up to it), not under an equality with "previous+1"
 	// (a hyphenated word can put the next token several lines further).
 	nE := 0
-	var eolWrites []ssa.CallInstruction
-	for _, call := range core.CallsIn(nz) {
-		name := core.StaticCalleeName(call.Common())
+	var eolWrites []writeSite
+	for _, ws := range sites {
+		name := core.StaticCalleeName(ws.leaf.Common())
 		isEOLWrite := false
-		if strings.HasSuffix(name, ").WriteString") && len(call.Common().Args) == 2 {
-			if u, ok := call.Common().Args[1].(*ssa.UnOp); ok && u.Op == token.MUL && u.X == ssa.Value(eolG) {
+		if strings.HasSuffix(name, ").WriteString") {
+			if u, ok := ws.arg.(*ssa.UnOp); ok && u.Op == token.MUL && u.X == ssa.Value(eolG) {
 				isEOLWrite = true
 			}
-			if sv, ok := core.ConstString(call.Common().Args[1]); ok && sv == "\n" {
+			if sv, ok := core.ConstString(ws.arg); ok && sv == "\n" {
 				isEOLWrite = true
 			}
 		}
-		if (strings.HasSuffix(name, ").WriteByte") || strings.HasSuffix(name, ").WriteRune")) && len(call.Common().Args) == 2 {
-			if k, ok := core.ConstInt(call.Common().Args[1]); ok && k == '\n' {
+		if strings.HasSuffix(name, ").WriteByte") || strings.HasSuffix(name, ").WriteRune") {
+			if k, ok := core.ConstInt(ws.arg); ok && k == '\n' {
 				isEOLWrite = true
 			}
 		}
@@ -4083,9 +4267,28 @@ func checkNormalizeEOLGuard(c *Ctx, p *core.Prog, nz *ssa.Function) {
 			continue
 		}
 		nE++
-		isLine := func(v ssa.Value) bool { return strings.HasSuffix(core.AP(v), ".Line") }
+		// a line number: a Line field of a token, or - inside a helper - the parameter that is handed one
+		isLine := func(v ssa.Value) bool {
+			if strings.HasSuffix(core.AP(v), ".Line") {
+				return true
+			}
+			if prm, ok := v.(*ssa.Parameter); ok && ws.top != ssa.Instruction(ws.leaf) {
+				if tc, isCall := ws.top.(ssa.CallInstruction); isCall {
+					for k, q := range prm.Parent().Params {
+						if q == prm && k < len(tc.Common().Args) && strings.HasSuffix(core.AP(tc.Common().Args[k]), ".Line") {
+							return true
+						}
+					}
+				}
+			}
+			return false
+		}
 		ordered, equal := false, false
-		for _, f := range core.FactsAtInstr(call) {
+		facts := core.FactsAtInstr(ws.leaf)
+		if ws.top != ssa.Instruction(ws.leaf) {
+			facts = append(facts, core.FactsAtInstr(ws.top)...)
+		}
+		for _, f := range facts {
 			cmp, ok := f.AsCmp()
 			if !ok || !(isLine(cmp.X) || isLine(cmp.Y)) {
 				continue
@@ -4099,11 +4302,15 @@ func checkNormalizeEOLGuard(c *Ctx, p *core.Prog, nz *ssa.Function) {
 		}
 		// ... and it is repeated: it sits in a loop of its own inside the loop over the tokens (one write under a
 		// "line changed" test gives one line break however many lines the token lies further)
-		if loopDepthOf(call.Block()) < 2 {
+		depth := loopDepthOf(ws.leaf.Block())
+		if ws.top != ssa.Instruction(ws.leaf) {
+			depth += loopDepthOf(ws.top.Block())
+		}
+		if depth < 2 {
 			ordered = false
 		}
-		eolWrites = append(eolWrites, call)
-		c.R.Check(ordered && !equal, "R11.9", "Normalize: a line break is written for every line the token lies behind the previous one", p.Pos(call.Pos()),
+		eolWrites = append(eolWrites, ws)
+		c.R.Check(ordered && !equal, "R11.9", "Normalize: a line break is written for every line the token lies behind the previous one", p.Pos(ws.leaf.Pos()),
 			"the end-of-line write is repeated while the written line is behind the token's line", "the end-of-line write is guarded by an equality on the token's line (exactly one line further): after a word hyphenated over two line breaks the next token lies two lines further, no line break (and no blank) is written and the words are glued together")
 	}
 	c.R.RequireMin("R11.9", "end-of-line writes of Normalize", nE, 1)
@@ -4112,16 +4319,12 @@ func checkNormalizeEOLGuard(c *Ctx, p *core.Prog, nz *ssa.Function) {
 	// always 1 (lines can be removed without leaving an end-of-line token, e.g. a notice ending in a word hyphenated over the
 	// line break). A word write outside the loop that writes the line breaks puts that word on the wrong line.
 	nW := 0
-	for _, call := range core.CallsIn(nz) {
-		if core.StaticCalleeName(call.Common()) != "(*bytes.Buffer).WriteString" && core.StaticCalleeName(call.Common()) != "(*strings.Builder).WriteString" {
-			continue
-		}
-		w, isCall := call.Common().Args[1].(*ssa.Call)
-		if !isCall || w.Call.StaticCallee() != getWord {
+	for _, ws := range sites {
+		if _, ok := isWordWrite(ws); !ok {
 			continue
 		}
 		nW++
-		wb := call.Block()
+		wb := ws.top.Block()
 		inSameLoop := false
 		for h := wb; h != nil; h = h.Idom() {
 			isHeader := false
@@ -4134,12 +4337,12 @@ func checkNormalizeEOLGuard(c *Ctx, p *core.Prog, nz *ssa.Function) {
 				continue
 			}
 			for _, ew := range eolWrites {
-				if h.Dominates(ew.Block()) && reaches(ew.Block(), h) {
+				if h.Dominates(ew.top.Block()) && reaches(ew.top.Block(), h) {
 					inSameLoop = true
 				}
 			}
 		}
-		c.R.Check(inSameLoop, "R11.11", "Normalize: a word is written in the loop that first writes the line breaks up to its line", p.Pos(call.Pos()),
+		c.R.Check(inSameLoop, "R11.11", "Normalize: a word is written in the loop that first writes the line breaks up to its line", p.Pos(ws.top.Pos()),
 			"the word write shares a loop with an end-of-line write", "a token is written without the line breaks that lead to its line (a first token that is assumed to lie on line 1): when the first lines of the input were removed without an end-of-line token the word lands on an earlier line than Match attributes it to")
 	}
 	c.R.RequireMin("R11.11", "words written by Normalize", nW, 1)
